@@ -33,7 +33,16 @@ pub fn run(ctx: &Ctx) -> i32 {
         if mask == 0 {
             mask = 3;
         }
-        let m = gen_map(rng, category, mask, 4);
+        // mostly a handful of files per pattern; now and then long lists (33-150 files, with namesakes among them)
+        let max_files = match rng.below(12) {
+            0 => 40,
+            1 => 150,
+            _ => 4,
+        };
+        let m = gen_map(rng, category, mask, max_files);
+        if m.iter().any(|(_, e)| e.len() > 32) {
+            acc.cov("maps-with-more-than-32-files-under-a-pattern");
+        }
         let nontrivial = m.len() >= 3 || m.iter().any(|(_, e)| e.len() >= 2);
         if nontrivial {
             acc.nontrivial_h(hash_str(&map_json(&m).to_string()));
